@@ -19,7 +19,17 @@ def alg : HashType → Alg
 def hashLen : HashType → Nat
   | .md5 => hashLen_md5 | .sha1 => hashLen_sha1 | .sha224 => hashLen_sha2_224
   | .sha256 => hashLen_sha2_256 | .sha384 => hashLen_sha2_384 | .sha512 => hashLen_sha2_512
+/-- enumerator value of the type in `PCryptoHashType` (pcryptohash.h; generated) -/
+def code : HashType → Int
+  | .md5 => typeCode_md5 | .sha1 => typeCode_sha1 | .sha224 => typeCode_sha2_224
+  | .sha256 => typeCode_sha2_256 | .sha384 => typeCode_sha2_384 | .sha512 => typeCode_sha2_512
+def all : List HashType := [.md5, .sha1, .sha224, .sha256, .sha384, .sha512]
+/-- the `switch` of `p_crypto_hash_new`, restricted to this family: the type an integer selects -/
+def ofCode (c : Int) : Option HashType := all.find? fun t => t.code == c
 end HashType
+
+/-- the range test at the top of `p_crypto_hash_new ((PCryptoHashType) c)`: any other integer gives NULL -/
+def typeAccepted (c : Int) : Bool := decide (typeCodeMin ≤ c) && decide (c ≤ typeCodeMax)
 
 /-- `struct PCryptoHash_`: `type` never changes after `p_crypto_hash_new`, so it is an index here;
     `context` is the algorithm context, `hash_len` and the function pointers are `t.hashLen`, `t.alg` -/
@@ -69,6 +79,22 @@ def getDigest (h : PHash t) (cap : Nat) : PHash t × Option (List UInt8) :=
 
 /-- `p_crypto_hash_get_length` -/
 def getLength (_h : PHash t) : Nat := t.hashLen
+
+/-- `p_crypto_hash_get_type` -/
+def getType (_h : PHash t) : Int := t.code
+
+/-- `p_crypto_hash_update (hash, NULL, len)`: returns before looking at the hash -/
+def updateNull (h : PHash t) (_len : Nat) : PHash t := h
+
+/-- `p_crypto_hash_get_digest (hash, NULL, &len)`: `*len = 0`, returns before the capacity test and before
+    finishing — not a read, whatever `*len` was -/
+def getDigestNullBuf (h : PHash t) (_cap : Nat) : PHash t × Nat := (h, 0)
+
+/-- `p_crypto_hash_get_digest (hash, buf, NULL)`: returns at once -/
+def getDigestNullLen (h : PHash t) : PHash t := h
 end PHash
+
+/-- the answers of the entry points for `hash == NULL`: `get_string`, `*len` of `get_digest`, `get_length`, `get_type` -/
+def nullAnswers : Option String × Nat × Nat × Int := (none, 0, nullLength, nullType)
 
 end PV.Hash
